@@ -13,6 +13,36 @@ pub enum S {
     DecBin(Ty, i64),
     DecBinBytes(Ty, Vec<u8>),
     DecJson(Ty, String),
+    /// history: a serialization whose output sink fails after `cap` bytes, then an ordinary round trip of the second value
+    AfterFail(V, usize, V),
+}
+/// a sink that accepts `cap` bytes and then reports an I/O error (a closed socket, a full buffer)
+struct LimitedWriter {
+    cap: usize,
+}
+impl std::io::Write for LimitedWriter {
+    fn write(&mut self, b: &[u8]) -> std::io::Result<usize> {
+        if b.len() > self.cap {
+            self.cap = 0;
+            return Err(std::io::Error::new(std::io::ErrorKind::BrokenPipe, "sink is full"));
+        }
+        self.cap -= b.len();
+        Ok(b.len())
+    }
+    fn flush(&mut self) -> std::io::Result<()> {
+        Ok(())
+    }
+}
+fn ser_into_limited(lv: &LV, cap: usize) -> bool {
+    let w = LimitedWriter { cap };
+    match lv {
+        LV::Date(x) => serde_json::to_writer(w, x).is_ok(),
+        LV::Time(x) => serde_json::to_writer(w, x).is_ok(),
+        LV::Ts(x) => serde_json::to_writer(w, x).is_ok(),
+        LV::Ora(x) => serde_json::to_writer(w, x).is_ok(),
+        LV::YM(x) => serde_json::to_writer(w, x).is_ok(),
+        LV::DT(x) => serde_json::to_writer(w, x).is_ok(),
+    }
 }
 impl Case for S {
     fn to_json(&self) -> Value {
@@ -21,6 +51,7 @@ impl Case for S {
             S::DecBin(ty, raw) => json!({"kind": "decode-binary-integer", "type": ty.name(), "raw": raw}),
             S::DecBinBytes(ty, b) => json!({"kind": "decode-binary-bytes", "type": ty.name(), "bytes": b}),
             S::DecJson(ty, t) => json!({"kind": "decode-json", "type": ty.name(), "json": t}),
+            S::AfterFail(a, cap, b) => json!({"kind": "roundtrip-after-failed-write", "first": a.to_json(), "first_show": a.show(), "sink_capacity": cap, "value": b.to_json(), "show": b.show()}),
         }
     }
 }
@@ -98,6 +129,17 @@ fn raw_in_range(ty: Ty, raw: i64) -> bool {
 pub fn check(st: &mut Stats, c: &S) {
     crate::props::c05::pin_clock();
     match c {
+        S::AfterFail(a, cap, b) => {
+            if let Some(lv) = a.to_lib() {
+                st.op(Op::S_json_ser);
+                if ser_into_limited(&lv, *cap) {
+                    st.bump("writes into the limited sink that fitted");
+                } else {
+                    st.bump("writes into the limited sink that failed");
+                }
+            }
+            check(st, &S::Rt(*b));
+        }
         S::Rt(v) => {
             let lv = match v.to_lib() {
                 Some(x) => x,
@@ -288,6 +330,53 @@ pub fn run(ctx: &Ctx, st: &mut Stats) {
         let v = rand_value(rng, ALL_TY[(i % 6) as usize]);
         st.eval_h(hash64(v.show().as_bytes()), &S::Rt(v), check);
     });
+    // ---- history monitors: the same instant / the same payload through different types back to back; failed writes
+    let nh = ctx.tier.pick(40, 200_000, 2_000_000);
+    ctx.par(st, "history: same instant or same payload through two types back to back; a failed write before a round trip", false, 0, nh, |st, i, rng| {
+        let x = match rng.below(3) {
+            0 => rng.range_i64(TS_MIN, ORA_MAX),
+            1 => rng.range_i64(TS_MIN, ORA_MAX) / 1_000_000 * 1_000_000,
+            _ => rng.range_i64(-2, 2) * DAY_US + rng.range_i64(0, 86_399) * 1_000_000 + *rng.pick(&[0i64, 250_000, 500_000, 999_999]),
+        };
+        let x = x.clamp(TS_MIN, ORA_MAX);
+        let (n, tod) = (x.div_euclid(DAY_US), x.rem_euclid(DAY_US));
+        let (y, m, d) = cal().of(n as i32);
+        let (h, mi, s, us) = ((tod / 3_600_000_000) as u32, (tod / 60_000_000 % 60) as u32, (tod / 1_000_000 % 60) as u32, (tod % 1_000_000) as u32);
+        let ts = V::Ts(y, m, d, h, mi, s, us);
+        let ora = V::Ora(y, m, d, h, mi, s);
+        let date = V::Date(y, m, d);
+        let time = V::Time(h, mi, s, us);
+        let dt = V::DT(false, 0, h, mi, s, us);
+        let vs = [ts, ora, date, time, dt];
+        let hx = mix(x as u64, i as u64);
+        match i % 4 {
+            0 => {
+                // two types, same instant, both orders
+                let a = vs[rng.below(5) as usize];
+                let b = vs[rng.below(5) as usize];
+                st.eval_hist(hx, vec![S::Rt(a), S::Rt(b), S::Rt(a)], check);
+            }
+            1 => {
+                // one payload decoded as two types
+                let toks = tokenize(layout(Ty::Ts).as_bytes()).expect("layout");
+                let text = format!("\"{}\"", render(&ts, &toks).expect("layout applies"));
+                let text = if rng.chance(1, 2) { text } else { format!("\"{}\"", render(&ora, &tokenize(layout(Ty::Ora).as_bytes()).expect("layout")).expect("layout applies")) };
+                let mut tys = [Ty::Ts, Ty::Ora, Ty::Date, Ty::Time, Ty::DT, Ty::YM];
+                let k = rng.below(6) as usize;
+                tys.swap(0, k);
+                let k = 1 + rng.below(5) as usize;
+                tys.swap(1, k);
+                st.eval_hist(mix(hx, tys[0] as u64 * 8 + tys[1] as u64), vec![S::DecJson(tys[0], text.clone()), S::DecJson(tys[1], text.clone()), S::DecJson(tys[0], text)], check);
+            }
+            _ => {
+                let a = vs[rng.below(5) as usize];
+                let tyb = ALL_TY[rng.below(6) as usize];
+                let b = if rng.chance(1, 2) { vs[rng.below(5) as usize] } else { rand_value(rng, tyb) };
+                let cap = rng.below(34) as usize;
+                st.eval_hist(mix(hx, cap as u64), vec![S::AfterFail(a, cap, b)], check);
+            }
+        }
+    });
     // decoding raw integers at and around the limits and at the integer extremes
     st.stratum("decode: raw integers at limits +-1, extremes", true);
     for ty in ALL_TY {
@@ -400,6 +489,10 @@ pub fn replay(v: &Value, st: &mut Stats) -> bool {
         "decode-binary-integer" => S::DecBin(ty.unwrap_or(Ty::Date), ji64(v, "raw")),
         "decode-binary-bytes" => S::DecBinBytes(ty.unwrap_or(Ty::Date), v.get("bytes").and_then(|b| b.as_array()).map(|a| a.iter().map(|x| x.as_u64().unwrap_or(0) as u8).collect()).unwrap_or_default()),
         "decode-json" => S::DecJson(ty.unwrap_or(Ty::Date), jstr(v, "json")),
+        "roundtrip-after-failed-write" => match (v.get("first").and_then(V::from_json), v.get("value").and_then(V::from_json)) {
+            (Some(a), Some(b)) => S::AfterFail(a, ji64(v, "sink_capacity") as usize, b),
+            _ => return false,
+        },
         _ => return false,
     };
     st.eval(&c, check);
